@@ -51,7 +51,7 @@ theorem run_dry_file (fx : Fix) {α : Type} (p : Prog α) : ∀ (r : Reg) (fs : 
   | addName n p ih => intro r fs; simp only [run]; exact ih _ fs
   | createDim d p ih => intro r fs; simp [run]; exact ih r fs
   | ensureDim d p ih => intro r fs; simp [run]; exact ih r fs
-  | createVar v p ih => intro r fs; simp only [run, beq_self_eq_true, if_true]; exact ih r fs
+  | createVar v e p ih => intro r fs; simp only [run, beq_self_eq_true, if_true]; exact ih r fs
   | setAttr n k v p ih => intro r fs; simp [run]; exact ih r fs
   | setGlobal k v p ih => intro r fs; simp [run]; exact ih r fs
 
@@ -72,11 +72,129 @@ theorem mem_dimNames_of_ext {E D : Ds} (h : Extends E D) {n : Name} (hn : n ∈ 
   obtain ⟨nd, hd, _⟩ := h.dims
   rw [dimNames_append_of hd]; exact List.mem_append.mpr (Or.inl hn)
 
-theorem PostInv.createVar {E : Ds} {fs : FileSt} (h : PostInv E fs) (v : Var) (hv : v.name ∉ fs.ds.varNames) :
-    PostInv E { ds := { fs.ds with vars := fs.ds.vars ++ [v] }, created := fs.created ++ [v.name] } := by
+/-! ### Writing data: the length of unlimited dimensions -/
+
+theorem growDim_name (wr : List (Name × Nat)) (D : Dim) : (growDim wr D).name = D.name := by
+  unfold growDim; split <;> rfl
+
+theorem growDim_unlim (wr : List (Name × Nat)) (D : Dim) : (growDim wr D).unlim = D.unlim := by
+  unfold growDim; split <;> rfl
+
+theorem grow_names (dims : List Dim) (wr : List (Name × Nat)) : (grow dims wr).map (·.name) = dims.map (·.name) := by
+  simp [grow, List.map_map, Function.comp_def, growDim_name]
+
+theorem grow_append (a b : List Dim) (wr : List (Name × Nat)) : grow (a ++ b) wr = grow a wr ++ grow b wr := by
+  simp [grow]
+
+theorem foldl_max_ge (nm : Name) : ∀ (wr : List (Name × Nat)) (s : Nat),
+    s ≤ wr.foldl (fun s p => if p.1 == nm then max s p.2 else s) s := by
+  intro wr
+  induction wr with
+  | nil => intro s; exact Nat.le_refl s
+  | cons p t ih =>
+    intro s
+    simp only [List.foldl_cons]
+    split
+    · exact Nat.le_trans (Nat.le_max_left s p.2) (ih _)
+    · exact ih s
+
+theorem foldl_max_eq (nm : Name) : ∀ (wr : List (Name × Nat)) (s : Nat), (∀ p ∈ wr, p.1 = nm → p.2 ≤ s) →
+    wr.foldl (fun s p => if p.1 == nm then max s p.2 else s) s = s := by
+  intro wr
+  induction wr with
+  | nil => intro s _; rfl
+  | cons p t ih =>
+    intro s h
+    simp only [List.foldl_cons]
+    by_cases hc : p.1 = nm
+    · have : p.2 ≤ s := h p (by simp) hc
+      simp only [hc, beq_self_eq_true, if_true, Nat.max_eq_left this]
+      exact ih s (fun q hq => h q (List.mem_cons_of_mem _ hq))
+    · have : (p.1 == nm) = false := by simp [hc]
+      simp only [this, Bool.false_eq_true, if_false]
+      exact ih s (fun q hq => h q (List.mem_cons_of_mem _ hq))
+
+theorem growDim_grownFrom (wr : List (Name × Nat)) (D : Dim) : (growDim wr D).grownFrom D := by
+  unfold growDim Dim.grownFrom
+  split
+  · rename_i hu
+    exact ⟨rfl, rfl, foldl_max_ge D.name wr D.size, fun hf => by rw [hu] at hf; cases hf⟩
+  · exact ⟨rfl, rfl, Nat.le_refl _, fun _ => rfl⟩
+
+/-- Nothing longer than the dimension is written along it: the dimension keeps its length. -/
+theorem growDim_id (wr : List (Name × Nat)) (D : Dim) (h : D.unlim = true → ∀ p ∈ wr, p.1 = D.name → p.2 ≤ D.size) :
+    growDim wr D = D := by
+  unfold growDim
+  split
+  · rename_i hu
+    rw [foldl_max_eq D.name wr D.size (h hu)]
+  · rfl
+
+theorem ShapeOK.zip {E : Ds} : ∀ {dims : List Name} {ext : List Nat}, ShapeOK E dims ext →
+    ∀ p ∈ dims.zip ext, ∀ D ∈ E.dims, D.unlim = true → D.name = p.1 → p.2 = D.size := by
+  intro dims
+  induction dims with
+  | nil => intro ext _ p hp; simp at hp
+  | cons d ds ih =>
+    intro ext h p hp
+    cases ext with
+    | nil => simp at hp
+    | cons n ns =>
+      simp only [ShapeOK] at h
+      simp only [List.zip_cons_cons, List.mem_cons] at hp
+      rcases hp with rfl | hp
+      · exact h.1
+      · exact ih h.2 p hp
+
+theorem ShapeOK.length {E : Ds} : ∀ {dims : List Name} {ext : List Nat}, ShapeOK E dims ext → dims.length = ext.length := by
+  intro dims
+  induction dims with
+  | nil => intro ext h; cases ext with
+    | nil => rfl
+    | cons _ _ => simp [ShapeOK] at h
+  | cons d ds ih =>
+    intro ext h
+    cases ext with
+    | nil => simp [ShapeOK] at h
+    | cons n ns => simp only [ShapeOK] at h; simp [ih h.2]
+
+theorem ShapeOK.append {E : Ds} : ∀ {d1 : List Name} {e1 : List Nat} {d2 : List Name} {e2 : List Nat},
+    ShapeOK E d1 e1 → ShapeOK E d2 e2 → ShapeOK E (d1 ++ d2) (e1 ++ e2) := by
+  intro d1
+  induction d1 with
+  | nil => intro e1 d2 e2 h1 h2; cases e1 with
+    | nil => simpa using h2
+    | cons _ _ => simp [ShapeOK] at h1
+  | cons d ds ih =>
+    intro e1 d2 e2 h1 h2
+    cases e1 with
+    | nil => simp [ShapeOK] at h1
+    | cons n ns =>
+      simp only [ShapeOK] at h1
+      simp only [List.cons_append, ShapeOK]
+      exact ⟨h1.1, ih h1.2 h2⟩
+
+/-- Writing an array whose extents are the current lengths of the old unlimited dimensions leaves the old
+dimensions as they are (new ones, created by the same pass, may get longer). -/
+theorem grow_old_id {E : Ds} {nd : List Dim} {dims : List Name} {ext : List Nat} (h : ShapeOK E dims ext) :
+    grow (E.dims ++ nd) (dims.zip ext) = E.dims ++ grow nd (dims.zip ext) := by
+  rw [grow_append]
+  congr 1
+  unfold grow
+  conv => rhs; rw [← List.map_id E.dims]
+  apply List.map_congr_left
+  intro D hD
+  simp only [id]
+  apply growDim_id
+  intro hu p hp hn
+  exact Nat.le_of_eq (h.zip p hp D hD hu hn.symm)
+
+theorem PostInv.createVar {E : Ds} {fs : FileSt} (h : PostInv E fs) (v : Var) (hv : v.name ∉ fs.ds.varNames)
+    (dims' : List Dim) (hd : ∃ nd, dims' = E.dims ++ nd ∧ ∀ d ∈ nd, d.name ∉ E.dimNames) :
+    PostInv E { ds := { fs.ds with dims := dims', vars := fs.ds.vars ++ [v] }, created := fs.created ++ [v.name] } := by
   have hE : v.name ∉ E.varNames := fun hc => hv (mem_varNames_of_ext h.ext hc)
   obtain ⟨nv, hvs, hnv⟩ := h.ext.vars
-  refine ⟨⟨h.ext.gattrs, ⟨nv ++ [v], by simp [hvs], ?_⟩, h.ext.dims⟩, ?_⟩
+  refine ⟨⟨h.ext.gattrs, ⟨nv ++ [v], by simp [hvs], ?_⟩, hd⟩, ?_⟩
   · intro w hw
     rcases List.mem_append.mp hw with h1 | h1
     · exact hnv w h1
@@ -127,63 +245,18 @@ theorem PostInv.setAttr {E : Ds} {fs : FileSt} (h : PostInv E fs) (n : Name) (k 
     · simpa [hc] using this
     · simpa [hc] using this
 
-theorem run_post_inv (fx : Fix) (hg : fx.globalsGuarded = true) (E : Ds) {α : Type} (p : Prog α) :
-    ∀ (r : Reg) (fs : FileSt), PostInv E fs → PostInv E (run fx .post p r fs).2.2 := by
-  induction p with
-  | pure a => intro r fs h; exact h
-  | fail e => intro r fs h; exact h
-  | mode k ih => intro r fs h; simp only [run]; exact ih _ r fs h
-  | get k ih => intro r fs h; simp only [run]; exact ih _ r fs h
-  | modAux g p ih => intro r fs h; simp only [run]; exact ih _ fs h
-  | alloc b k ih => intro r fs h; simp only [run]; exact ih _ _ fs h
-  | allocRole b s role k ih => intro r fs h; simp only [run]; exact ih _ _ fs h
-  | noteDim n s p ih => intro r fs h; simp only [run]; exact ih _ fs h
-  | addName n p ih => intro r fs h; simp only [run]; exact ih _ fs h
-  | createDim d p ih =>
-    intro r fs h
-    simp only [run]
-    split
-    · exact ih r fs h
-    · split
-      · exact h
-      · rename_i hc
-        exact ih r _ (h.createDim d (by simpa using hc))
-  | ensureDim d p ih =>
-    intro r fs h
-    simp only [run]
-    split
-    · exact ih r fs h
-    · rename_i hc
-      have : d.name ∉ fs.ds.dimNames := by
-        intro hm; apply hc; simp [hm]
-      exact ih r _ (h.createDim d this)
-  | createVar v p ih =>
-    intro r fs h
-    simp only [run]
-    split
-    · exact ih r fs h
-    · split
-      · exact h
-      · rename_i hc
-        split
-        · exact h
-        · exact ih r _ (h.createVar v (by simpa using hc))
-  | setAttr n k v p ih =>
-    intro r fs h
-    simp only [run]
-    split
-    · exact ih r fs h
-    · rename_i hc
-      have : n ∈ fs.created := by
-        by_cases hm : n ∈ fs.created
-        · exact hm
-        · exact absurd (by simp [hm]) hc
-      exact ih r _ (h.setAttr n k v this)
-  | setGlobal k v p ih =>
-    intro r fs h
-    simp only [run]
-    split
-    · rename_i hc; exact absurd hc (by simp [hg])
-    · exact ih r fs h
+/-- A write that keeps the old dimensions keeps the invariant. -/
+theorem PostInv.createVarShape {E : Ds} {fs : FileSt} (h : PostInv E fs) (v : Var) (ext : List Nat)
+    (hv : v.name ∉ fs.ds.varNames) (hs : ShapeOK E v.dims ext) :
+    PostInv E { ds := { fs.ds with dims := grow fs.ds.dims (v.dims.zip ext), vars := fs.ds.vars ++ [v] },
+                created := fs.created ++ [v.name] } := by
+  apply h.createVar v hv
+  obtain ⟨nd, hd, hn⟩ := h.ext.dims
+  refine ⟨grow nd (v.dims.zip ext), by rw [hd, grow_old_id hs], ?_⟩
+  intro d hdm
+  unfold grow at hdm
+  obtain ⟨D, hD, rfl⟩ := List.mem_map.mp hdm
+  rw [growDim_name]
+  exact hn D hD
 
 end Cfdm.Append
